@@ -58,7 +58,9 @@ pub fn build(raw: &Raw, _tier: Tier, _sched: bool) -> Scenario {
         }
         if racing_stop && t + 1 == nthreads {
             let at = pick(knob(raw, 6), b.s.threads[th].len() + 1);
-            b.s.threads[th].insert(at, Op::Stop { store: s, via_trait: knob(raw, 7) % 2 == 1 });
+            // a racing stop() - or only close(), the epilogue's stop() then has to wait for the backlog
+            let op = if knob(raw, 7) % 3 == 2 { Op::Close { store: s } } else { Op::Stop { store: s, via_trait: knob(raw, 7) % 2 == 1 } };
+            b.s.threads[th].insert(at, op);
         }
     }
     b.s.epilogue.push(Op::Stop { store: s, via_trait: false });
@@ -148,11 +150,11 @@ pub fn check(scn: &Scenario, h: &History) -> Outcome {
 
 pub static PROFILE: Profile = Profile {
     id: "C01",
-    rule: "proptest scenarios: 1-4 producer threads, 1-3 build-time reducers (+ up to 2 added at run time), Dispatch/Keep mixes, effects incl. follow-up actions, vetoing middleware, capacity 1-16, all policies, concurrent get_state/add_subscriber, optional racing stop. Non-trivial = pipeline order interleaves >= 2 producers (more producer switches than producers) OR some action went through a chain of >= 2 reducers containing a Keep; distinct by scenario hash.",
+    rule: "proptest scenarios: 1-4 producer threads, 1-3 build-time reducers (+ up to 2 added at run time), Dispatch/Keep mixes, effects incl. follow-up actions, vetoing middleware, capacity 1-16, all policies, concurrent get_state/add_subscriber, optional racing stop() or close() (followed by the final stop()). Non-trivial = pipeline order interleaves >= 2 producers (more producer switches than producers) OR some action went through a chain of >= 2 reducers containing a Keep; distinct by scenario hash.",
     raw,
     build,
     check,
-    budget: Budget { r_cases: (2000, 40000), s_cases: (1500, 10000), s_scheds: (16, 64) },
+    budget: Budget { r_cases: (4000, 40000), s_cases: (3000, 10000), s_scheds: (16, 64) },
     liveness: false,
     enumerate: None,
     extra: None,
